@@ -39,6 +39,11 @@ type Profile struct {
 	NoOverflowGuard         bool
 }
 
+// generator-only composite kinds
+const (
+	GQuietNative = "g:quiet_native"
+)
+
 const (
 	ns  = int64(1)
 	sec = int64(time.Second)
@@ -434,6 +439,32 @@ func (g *Gen) Step() {
 			}
 		}
 		x.Apply(Op{K: kind, D: d, V: v, W: (v + 1 + g.intn("w", nv-1)) % nv, Amt: amt})
+	case GQuietNative:
+		// a native delegator removes a whole delegation (or delegates) and nothing else
+		// happens in that block; a quiet block follows
+		var have [][2]int
+		for d := 0; d < 2; d++ {
+			for v := 0; v < nv; v++ {
+				if _, err := x.W.App.StakingKeeper.GetDelegation(x.Ctx, x.natAcc(d), x.W.Vals[v]); err == nil {
+					have = append(have, [2]int{d, v})
+				}
+			}
+		}
+		x.Apply(Op{K: KBlock, Dt: g.dt(), Fees: g.fees()})
+		if len(have) == 0 || g.pct("quiet-delegate", 30) {
+			x.Apply(Op{K: KNatDel, D: g.intn("nd", 2), V: g.intn("v", nv), Amt: new(big.Int).Mul(big.NewInt(int64(g.intn("m", 9)+1)), pow10(6+g.intn("k", 4))).String()})
+		} else {
+			h := have[g.intn("which", len(have))]
+			del, _ := x.W.App.StakingKeeper.GetDelegation(x.Ctx, x.natAcc(h[0]), x.W.Vals[h[1]])
+			val, err := x.W.App.StakingKeeper.GetValidator(x.Ctx, x.W.Vals[h[1]])
+			if err != nil {
+				return
+			}
+			tok := val.TokensFromShares(del.Shares).TruncateInt()
+			x.Apply(Op{K: KNatUndel, D: h[0], V: h[1], Amt: tok.String()})
+		}
+		x.Apply(Op{K: KBlock, Dt: g.dt()})
+		x.Apply(Op{K: KBlock, Dt: g.dt()})
 	case KCreate:
 		signer := "auth"
 		if invalid {
